@@ -25,6 +25,7 @@ for sid in sorted(os.listdir(os.path.join(V, "seeded"))):
     prop = meta["property"]
     if only and sid not in only and prop not in only: continue
     if shard and int(prop[1:]) % int(shard.split("/")[1]) != int(shard.split("/")[0]): continue
+    if os.environ.get("ONLY_SUFFIX") and sid.split("_")[1] not in os.environ["ONLY_SUFFIX"].split(","): continue
     if not only and sid in results and results[sid].get("exit") is not None and not os.environ.get("REDO"): continue
     if prop not in claimed:
         results[sid] = dict(property=prop, outcome="property not claimed")
